@@ -16,6 +16,7 @@ CreateBlobM(b) == FewEdits /\ CreateBlob(b, <<A1>>)
 RewriteM(b) == FewEdits /\ Rewrite(b, A1)
 EditMin == \/ \E b \in Blobs : CreateBlobM(b)
            \/ \E b \in Blobs : RewriteM(b)
+           \/ \E b \in Blobs : ConsumeFailQ(b)
            \/ \E v \in PVals : ModifyPQ(v)
 PackAtTid(T) == T \in TidsOf(hist) /\ Pack(T)
 NextTxn == EditQ \/ Sp \/ AbortTxn \/ Tpc \/ AbortPath \/ OtherQ
